@@ -20,9 +20,10 @@ using namespace bspline::integration;
 #endif
 
 template <size_t nq, size_t o1, size_t o2, size_t d>
-void quad_case(size_t n, std::pair<size_t, size_t> wa) {
+void quad_case(size_t n, std::pair<size_t, size_t> wa, std::vector<std::pair<size_t, size_t>> wbs = {}) {
   auto &E = Engine::get();
-  auto g = gridvars(n);
+  auto g = gridpoints(n);
+  if (wbs.empty()) wbs = windows(n);
   Grid<Real> grid(g);
   std::vector<Real> w;
   for (size_t k = 0; k <= d; k++) w.push_back(Real::var("w" + std::to_string(k)));
@@ -36,7 +37,7 @@ void quad_case(size_t n, std::pair<size_t, size_t> wa) {
   };
   auto m1 = mkspline<o1>(grid, wa.first, wa.second, "a");
   bool ctl = false;
-  for (auto wb : windows(n)) {
+  for (auto wb : wbs) {
     auto m2 = mkspline<o2>(grid, wb.first, wb.second, "b");
     Real num = integrate<nq>(f, m1, m2);
     // reference: sum over common intervals of the exact integral of f*p1*p2 (origin basis, antiderivative at both ends)
@@ -92,4 +93,29 @@ void add_q(std::vector<Case> &cases) {
   add_o<nq, MAXO, MAXO>(cases);
   if constexpr (nq > 1) add_q<nq - 1>(cases);
 }
+#ifdef LARGE
+// fixed rational grid: sampled window pairs of a LARGE-point grid, and higher orders / finer rules on a 3-point grid
+#ifndef NSAMPLE
+#define NSAMPLE 7
+#endif
+template <size_t nq, size_t o1, size_t o2, size_t d>
+void add_large(std::vector<Case> &cases, size_t n) {
+  static_assert(2 * nq >= o1 + o2 + d + 1, "rule must be exact");
+  auto wbs = n > 8 ? windows_sample(n, NSAMPLE, 41 + o1) : windows(n);
+  for (auto wa : (n > 8 ? windows_sample(n, NSAMPLE, 42 + o2) : windows(n, false)))
+    cases.push_back({"quad-large/q" + std::to_string(nq) + "/o" + std::to_string(o1) + "x" + std::to_string(o2) + "/d" + std::to_string(d) + "/n" + std::to_string(n) + "/wa" + W(wa),
+                     [=] { quad_case<nq, o1, o2, d>(n, wa, wbs); }});
+}
+void hx_cases(std::vector<Case> &cases) {
+  add_large<2, 1, 1, 1>(cases, LARGE);
+  add_large<3, 2, 1, 2>(cases, LARGE);
+  add_large<2, 0, 3, 0>(cases, LARGE);
+  add_large<4, 3, 3, 1>(cases, 3);
+  add_large<4, 5, 2, 0>(cases, 3);
+  add_large<5, 4, 4, 1>(cases, 3);
+  add_large<5, 6, 3, 0>(cases, 2);
+  add_large<5, 2, 5, 2>(cases, 2);
+}
+#else
 void hx_cases(std::vector<Case> &cases) { add_q<MAXQ>(cases); }
+#endif
